@@ -1,9 +1,167 @@
 import KG.Base.Json
-/-! Driver entry points for property C19 (filled in by the C19 model). -/
-namespace KG.Driver.C19
-open Lean
+import KG.Spec.K8sStore
+/-! Driver entry points for property C19 (API-backed limiter store). Byte strings travel as hex.
 
-/-- `handle method args`: `none` when the method is unknown. -/
-def handle (_m : String) (_a : Json) : Option (Except String Json) := none
+* `C19.run`   — the model on a whole case (store configuration, initial API, operations, fault script):
+                per operation the answer, the cache, the API and the number of API calls made so far; and the
+                API after every call (the crash points).
+* `C19.judge` — the durability judge (`KG.Spec.K8sStore.judge`) on OBSERVATIONS (of the real store): the claims
+                are derived from the operations and their observed answers, and checked against the observed
+                API at every crash point.
+* `C19.load`  — what a fresh store for a shard holds after `Load()` on a given API (model), and the
+                declarative `persistedOf`. -/
+namespace KG.Driver.C19
+open Lean KG KG.Model.K8sStore KG.Spec.K8sStore
+
+def decodeCond (j : Json) : Except String Cond := do
+  pure { name := ← J.getHex j "name", upstream := ← J.getHex j "up", spec := ← J.getNat j "spec",
+         status := ← J.getNat j "status", labels := ← J.getNat j "labels", rv := ← J.getNat j "rv" }
+
+def encodeCond (c : Cond) : Json :=
+  J.obj [("name", J.hex c.name), ("up", J.hex c.upstream), ("spec", J.nat c.spec), ("status", J.nat c.status),
+         ("labels", J.nat c.labels), ("rv", J.nat c.rv)]
+
+def decodePair (j : Json) : Except String (Str × Str) := do
+  match (← j.getArr?).toList with
+  | [a, b] => pure (← J.asHex a, ← J.asHex b)
+  | _ => throw "pair expected"
+
+def decodeOrd (j : Json) : Except String (List (Str × Str)) :=
+  match j.getObjVal? "ord" with
+  | .ok v => do (← v.getArr?).toList.mapM decodePair
+  | .error _ => pure []
+
+def decodeOp (j : Json) : Except String Op := do
+  match ← J.getStr j "op" with
+  | "save" => pure (.save (← J.getHex j "key") (← decodeCond (← J.getObj j "cond")))
+  | "delete" => pure (.delete (← J.getHex j "key") (← J.getHex j "name"))
+  | "deleteUpstream" => pure (.deleteUpstream (← J.getHex j "key") (← decodeOrd j))
+  | "flush" => pure (.flush (← decodeOrd j))
+  | "stop" => pure (.stop (← decodeOrd j))
+  | "load" => pure .load
+  | "restart" => pure (.restart (← J.getNat j "shard") (← J.getBool j "wt"))
+  | o => throw s!"unknown op {o}"
+
+def decodeFault (j : Json) : Except String Fault := do
+  match ← j.getStr? with
+  | "ok" => pure .ok
+  | "notFound" => pure .notFound
+  | "conflict" => pure .conflict
+  | "alreadyExists" => pure .alreadyExists
+  | "transient" => pure .transient
+  | "lost" => pure .lost
+  | f => throw s!"unknown fault {f}"
+
+def errName : Err → String
+  | .notFound => "notFound"
+  | .conflict => "conflict"
+  | .alreadyExists => "alreadyExists"
+  | .other => "other"
+  | .timeout => "timeout"
+
+def resName : Res → String
+  | .ok => "ok"
+  | .err e => errName e
+  | .wrongShard => "wrongShard"
+
+def decodeRes (s : String) : Except String Res :=
+  match s with
+  | "ok" => pure .ok
+  | "notFound" => pure (.err .notFound)
+  | "conflict" => pure (.err .conflict)
+  | "alreadyExists" => pure (.err .alreadyExists)
+  | "other" => pure (.err .other)
+  | "timeout" => pure (.err .timeout)
+  | "wrongShard" => pure .wrongShard
+  | r => throw s!"unknown result {r}"
+
+/-- `util.GetShardID(upstream, shardCount)` as a table computed by the real function for every upstream of the case. -/
+def decodeShards (a : Json) : Except String (Str → Nat) := do
+  let tbl ← (← J.getArr a "shards").toList.mapM fun p => do
+    match (← p.getArr?).toList with
+    | [u, s] => pure (← J.asHex u, ← s.getNat?)
+    | _ => throw "shard pair expected"
+  pure fun u => (tbl.lookup u).getD 0
+
+def decodeConds (a : Json) (k : String) : Except String (List Cond) := do
+  (← J.getArr a k).toList.mapM decodeCond
+
+def decodeLoc (a : Json) (k : String) : Except String Loc := do
+  (← J.getArr a k).toList.mapM fun p => do
+    match (← p.getArr?).toList with
+    | [key, c] => pure (← J.asHex key, ← decodeCond c)
+    | _ => throw "loc pair expected"
+
+def encodeConds (l : List Cond) : Json := Json.arr (l.map encodeCond).toArray
+def encodeLoc (l : Loc) : Json := Json.arr (l.map fun e => Json.arr #[J.hex e.1, encodeCond e.2]).toArray
+
+def runOps (sh : Str → Nat) : Store → World → List Op → List Json → List Json
+  | _, _, [], acc => acc.reverse
+  | st, w, op :: ops, acc =>
+    match step sh st op w with
+    | (st', w', res) =>
+      runOps sh st' w' ops (J.obj [("res", Json.str (resName res)), ("loc", encodeLoc st'.loc),
+        ("api", encodeConds w'.api.objs), ("nextRv", J.nat w'.api.nextRv), ("calls", J.nat w'.trace.length),
+        ("stopped", J.bool st'.stopped)] :: acc)
+
+def doRun (a : Json) : Except String Json := do
+  let sh ← decodeShards a
+  let st := newStore (← J.getNat a "shard") (← J.getBool a "wt") (← J.getNat a "steps")
+  let api : Api := { objs := ← decodeConds a "api", nextRv := ← J.getNat a "nextRv" }
+  let ops ← (← J.getArr a "ops").toList.mapM decodeOp
+  let script ← (← J.getArr a "script").toList.mapM decodeFault
+  let w : World := { api := api, script := script, trace := [] }
+  -- the final world is recomputed for the trace (cheap: cases are small)
+  let final := ops.foldl (fun (p : Store × World) op => let r := step sh p.1 op p.2; (r.1, r.2.1)) (st, w)
+  pure <| J.obj [("steps", Json.arr (runOps sh st w ops []).toArray),
+                 ("trace", Json.arr (final.2.trace.reverse.map fun s => encodeConds s.objs).toArray)]
+
+/-- one observation: the operation, the cache before it, whether the store was stopped, the API after each call
+    it made, the API when it returned, its answer -/
+def judgeObs (sh : Str → Nat) : Cfg → Ghost → Nat → List Json → Except String Json
+  | _, _, _, [] => pure (J.obj [("ok", J.bool true)])
+  | cfg, g, i, o :: rest => do
+    let op ← decodeOp (← J.getObj o "op")
+    let st : Store := { cfg := cfg, loc := ← decodeLoc o "loc", stopped := ← J.getBool o "stopped" }
+    let res ← decodeRes (← J.getStr o "res")
+    let pts ← (← J.getArr o "points").toList.mapM fun p => do
+      pure ({ objs := ← (← p.getArr?).toList.mapM decodeCond, nextRv := 0 } : Api)
+    let fin : Api := { objs := ← decodeConds o "api", nextRv := 0 }
+    let g1 := ghostPre sh st op g
+    let bad (pt : Nat) (gg : Ghost) (api : Api) : Json :=
+      match firstBroken gg api with
+      | some (n, kind) => J.obj [("ok", J.bool false), ("at", J.nat i), ("point", J.nat pt), ("name", J.hex n), ("kind", J.nat kind)]
+      | none => J.obj [("ok", J.bool false), ("at", J.nat i), ("point", J.nat pt), ("name", J.hex []), ("kind", J.nat 9)]
+    match (pts.zipIdx).find? (fun p => ! judge g1 p.1) with
+    | some p => pure (bad p.2 g1 p.1)
+    | none =>
+      let g2 := ghostPost sh st op res g1
+      if ! judge g2 fin then pure (bad pts.length g2 fin)
+      else
+        let cfg' := match op with
+          | .restart s wt => { cfg with shard := s, writeThrough := wt }
+          | _ => cfg
+        judgeObs sh cfg' g2 (i + 1) rest
+
+def doJudge (a : Json) : Except String Json := do
+  let sh ← decodeShards a
+  let cfg : Cfg := { shard := ← J.getNat a "shard", writeThrough := ← J.getBool a "wt", steps := ← J.getNat a "steps" }
+  judgeObs sh cfg Ghost.empty 0 (← J.getArr a "obs").toList
+
+def doLoad (a : Json) : Except String Json := do
+  let sh ← decodeShards a
+  let shard ← J.getNat a "shard"
+  let api : Api := { objs := ← decodeConds a "api", nextRv := ← J.getNat a "nextRv" }
+  let w : World := { api := api, script := [], trace := [] }
+  let r := load sh (newStore shard true 5) w
+  pure <| J.obj [("res", Json.str (resName r.2.2)), ("loc", encodeLoc r.1.loc),
+                 ("persisted", encodeConds (persistedOf sh shard api))]
+
+def handle (m : String) (a : Json) : Option (Except String Json) :=
+  match m with
+  | "run" => some (doRun a)
+  | "judge" => some (doJudge a)
+  | "load" => some (doLoad a)
+  | _ => none
 
 end KG.Driver.C19
